@@ -19,7 +19,7 @@ def run(m):
             p = f"{d}/src/mdpax/{m['file']}"; s = open(p).read()
             if m["old"] not in s: return m, "PATTERN-NOT-FOUND", "", False
             open(p, "w").write(s.replace(m["old"], m["new"], 1))
-        env = dict(os.environ, MDPAX_SRC=d + "/src", VERIF_NO_HARNESS="1", VERIF_OUT_DIR=d)
+        env = dict(os.environ, MDPAX_SRC=d + "/src", VERIF_NO_HARNESS="1", VERIF_OUT_DIR=d, VERIF_NO_INLINE="1")
         if m.get("harness"): env.pop("VERIF_NO_HARNESS")          # rows whose expected outcome involves the bounded fallback
         pr = subprocess.run([os.path.join(ROOT, "bin", "check"), m["property"], "--tier", "quick"], capture_output=True, text=True, env=env, cwd=ROOT)
         out = pr.stdout
